@@ -33,15 +33,21 @@ EXTRA_REACH = {
     "C01": [("tartiflette/coercers/outputs/compute.py", "get_output_coercer")],   # builds the completion chain the anchors call through `output_coercer`
     "C02": [("tartiflette/coercers/outputs/compute.py", "get_output_coercer"),
             ("tartiflette/coercers/outputs/abstract_coercer.py", "ensure_valid_runtime_type")],  # an impossible runtime type is one of the contained failures
-    "C03": [("tartiflette/coercers/outputs/compute.py", "get_output_coercer")],
+    "C03": [("tartiflette/coercers/outputs/compute.py", "get_output_coercer"),
+            ("tartiflette/coercers/outputs/common.py", "complete_object_value")],          # the keys of an object are those collected for *its* runtime type, per completion
     "C08": [("tartiflette/coercers/outputs/compute.py", "get_output_coercer")],
     "C04": [(INPUTS, "*")],                                                        # the whole variable-coercion package
-    "C05": [("tartiflette/coercers/literals/", "*"), ("tartiflette/coercers/arguments.py", "*")],
+    "C05": [("tartiflette/coercers/literals/", "*"), ("tartiflette/coercers/arguments.py", "*"),
+            ("tartiflette/types/helpers/get_directive_instances.py", "*")],                # directive arguments are arguments: coerced per instance with the request's variables
     "C10": [(INPUTS + "scalar_coercer.py", "*"), ("tartiflette/coercers/literals/scalar_coercer.py", "*"), ("tartiflette/coercers/outputs/scalar_coercer.py", "*")],
-    "C13": [("tartiflette/types/helpers/get_directive_instances.py", "*")],
+    "C13": [("tartiflette/types/helpers/get_directive_instances.py", "*"),
+            (INPUTS, "*")],   # on_post_input_coercion hooks are part of the input coercers: applied per request, defaults included
     # _perform_subscription hands the *same* variables object to the source and to every per-event execution, and the same
     # validated document serves every event: variable coercion and the subscription-specific validation rule must keep no state
     "C14": [(INPUTS, "*"), ("tartiflette/coercers/variables.py", "*"), ("tartiflette/language/validators/query/single_root_field.py", "*")],
+    # the SDL pipeline: text -> lark document -> schema object; what it returns must be of this build only
+    "C11": [("tartiflette/language/parsers/lark/parser.py", "*"), ("tartiflette/schema/transformer.py", "*"), ("tartiflette/schema/bakery.py", "*")],
+    "C12": [("tartiflette/language/parsers/lark/parser.py", "*"), ("tartiflette/schema/transformer.py", "*"), ("tartiflette/schema/bakery.py", "*")],
     "C06": [("tartiflette/language/validators/query/", "*")],
     "C07": [("tartiflette/language/validators/query/", "*")],
 }
